@@ -425,6 +425,25 @@ End Extractors.
 Definition extract_keyboards : bytes -> res (list kdev) := extract_keyboards_with keyboard_like.
 Definition extract_input_devices : bytes -> res (list idev) := extract_input_devices_with keyboard_like.
 
+(* ---------------------------------------------------------------- domain of panic-freedom *)
+
+(* In well-formed UTF-8 a continuation byte follows a lead byte or another
+   continuation byte, never an ASCII byte. *)
+Fixpoint no_cont_after_ascii (l : bytes) : bool :=
+  match l with
+  | [] => true
+  | a :: r =>
+    match r with
+    | [] => true
+    | b :: _ => negb ((a <? 128) && is_cont b) && no_cont_after_ascii r
+    end
+  end.
+
+(* 2^25 bytes = 32 MiB *)
+Definition short (l : bytes) : bool := N.of_nat (List.length l) <? 33554432.
+
+Definition line_ok (l : bytes) : bool := no_cont_after_ascii l && short l.
+
 (* ---------------------------------------------------------------- entries (C16, DESIGN 9.3) *)
 
 (* An entry is a block of lines from one "I:" line up to (not including) the
